@@ -58,7 +58,7 @@ Lemma pushes_file_ge n : forall k s,
   N.of_nat n * N.of_nat n + 2 * N.of_nat k * N.of_nat n <= snd (psm_extend_loop_c true STFile 7 s (repeat [97] n)).
 Proof.
   induction n as [|n IH]; intros k s Hs; [cbn; lia|].
-  cbn [repeat psm_extend_loop_c]. change (list_eqb [97] [46] || list_eqb [97] [46; 46]) with false. cbv iota.
+  cbn [repeat psm_extend_loop_c]. change (psm_skips_c [97]) with (false, 2). cbv iota.
   rewrite Hs. destruct (push_a_file k) as (c & E & Hc). rewrite E.
   specialize (IH (S k) (s_file_root ++ body k ++ [97])).
   destruct (psm_extend_loop_c true STFile 7 (s_file_root ++ body k ++ [97]) (repeat [97] n)) as [o m].
